@@ -98,15 +98,44 @@ func (c *memCtx) xkey(k *bip32.ExtendedKey) *bip32.ExtendedKey {
 	return k
 }
 
+// results of EARLIER calls (of any function) that the sweep keeps holding: a result must be the caller's — later calls,
+// with other arguments or of other functions, must not change it (a slice into a recycled buffer or pool would)
+type heldResult struct {
+	fn    string
+	vals  []interface{}
+	canon string
+}
+
+var held []heldResult
+
+func (c *memCtx) checkHeld() {
+	for i := range held {
+		if now := canon(held[i].vals); now != held[i].canon {
+			c.problem = append(c.problem, fmt.Sprintf("%s: a result returned earlier by %s changed after this call: %.100s -> %.100s", c.fn, held[i].fn, held[i].canon, now))
+			held[i].canon = now
+		}
+	}
+}
+
 // call runs f twice on the same argument objects; deterministic functions must repeat.
 func (c *memCtx) call(deterministic bool, f func() []interface{}) {
-	r1 := canon(f())
+	v1 := f()
+	r1 := canon(v1)
 	c.verify("after 1st call")
+	c.checkHeld()
 	r2 := canon(f())
 	c.verify("after 2nd call")
 	if deterministic && r1 != r2 {
 		c.problem = append(c.problem, fmt.Sprintf("%s: not repeatable: %.120s vs %.120s", c.fn, r1, r2))
 	}
+	if now := canon(v1); now != r1 {
+		c.problem = append(c.problem, fmt.Sprintf("%s: the first call's result changed during the second call: %.100s -> %.100s", c.fn, r1, now))
+	}
+	c.checkHeld()
+	if len(held) >= 48 {
+		held = held[1:]
+	}
+	held = append(held, heldResult{c.fn, v1, canon(v1)})
 }
 
 func canon(vs []interface{}) string {
@@ -287,7 +316,7 @@ func init() {
 	add("bec.Encrypt", func(c *memCtx) {
 		pub := c.pub(somePoint(c.r))
 		in := c.bytes("in", c.r.bytes(c.r.intn(40)))
-		c.call(false, func() []interface{} { out, e := bec.Encrypt(pub, in); return []interface{}{len(out), e} })
+		c.call(false, func() []interface{} { out, e := bec.Encrypt(pub, in); return []interface{}{out, e} })
 	})
 	add("bec.Decrypt", func(c *memCtx) {
 		d := someScalar(c.r)
@@ -305,7 +334,7 @@ func init() {
 		c.call(true, func() []interface{} { a, b := bec.PrivKeyFromBytes(S(), pk); return []interface{}{a, b} })
 	})
 	add("bec.NewPrivateKey", func(c *memCtx) {
-		c.call(false, func() []interface{} { k, e := bec.NewPrivateKey(S()); return []interface{}{k != nil, e} })
+		c.call(false, func() []interface{} { k, e := bec.NewPrivateKey(S()); return []interface{}{k, e} })
 	})
 	add("bec.PrivateKey.PubKey", func(c *memCtx) {
 		p := c.priv(someScalar(c.r))
@@ -511,11 +540,11 @@ func init() {
 		c.call(true, func() []interface{} { k, e := bip32.NewKeyFromString(s); return []interface{}{k, e} })
 	})
 	add("bip32.GenerateSeed", func(c *memCtx) {
-		c.call(false, func() []interface{} { b, e := bip32.GenerateSeed(32); return []interface{}{len(b), e} })
+		c.call(false, func() []interface{} { b, e := bip32.GenerateSeed(uint8(16 + c.r.intn(49))); return []interface{}{b, e} })
 	})
 	// ---- bip39
 	add("bip39.GenerateEntropy", func(c *memCtx) {
-		c.call(false, func() []interface{} { b, e := bip39.GenerateEntropy(128); return []interface{}{len(b), e} })
+		c.call(false, func() []interface{} { b, e := bip39.GenerateEntropy(bip39.Entropy(128 + 32*c.r.intn(5))); return []interface{}{b, e} })
 	})
 	add("bip39.Mnemonic", func(c *memCtx) {
 		ent := c.bytes("entropy", c.r.bytes([]int{16, 20, 24, 28, 32, 17}[c.r.intn(6)]))
@@ -556,7 +585,10 @@ func init() {
 		raw := c.bytes("payload", []byte(`{"a":"x\"y","b":[1,2,3]}`))
 		c.call(false, func() []interface{} {
 			e, err := envelope.NewJSONEnvelope(json.RawMessage(raw))
-			return []interface{}{e != nil, err}
+			if e == nil || e.Signature == nil || e.PublicKey == nil {
+				return []interface{}{e != nil, err}
+			}
+			return []interface{}{e.Payload, *e.Signature, *e.PublicKey, err}
 		})
 	})
 	add("envelope.JSONEnvelope.IsValid", func(c *memCtx) {
@@ -578,7 +610,7 @@ func init() {
 	add("crypto.Encrypt", func(c *memCtx) {
 		blk, _ := aes.NewCipher(c.r.bytes(32))
 		txt := c.bytes("text", c.r.bytes(c.r.intn(40)))
-		c.call(false, func() []interface{} { out, e := crypto.Encrypt(blk, txt); return []interface{}{len(out), e} })
+		c.call(false, func() []interface{} { out, e := crypto.Encrypt(blk, txt); return []interface{}{out, e} })
 	})
 	add("crypto.Decrypt", func(c *memCtx) {
 		blk, _ := aes.NewCipher(c.r.bytes(16))
